@@ -8,6 +8,7 @@ import Cascette.Proofs.Salsa20
 import Cascette.Proofs.Jenkins
 import Cascette.Proofs.Arc4
 import Cascette.Proofs.Rc4
+import Cascette.Model.HashGuards
 import Cascette.Proofs.Simd
 namespace Cascette.Props.C09
 open Cascette
@@ -63,6 +64,19 @@ theorem salsa20_length (key iv : Bytes) (idx : Nat) (msg ct : Bytes) (hk : key.l
     exact Proofs.Salsa20.xorStream_length _ _ _ _ _
   · cases h
 
+/-- TEST (kernel evaluation) of the transcription Spec/Salsa20 AND of the model on the published
+ECRYPT Salsa20/20 128-bit vector (set 1, vector 0: key `80 00…00`, IV 0, keystream bytes 0..63). -/
+theorem salsa20_ecrypt_known_answer :
+    Spec.Salsa20.casc [0x80,0,0,0,0,0,0,0,0,0,0,0,0,0,0,0] [0,0,0,0,0,0,0,0] 0 (List.replicate 64 0) =
+      some [0x4d,0xfa,0x5e,0x48,0x1d,0xa2,0x3e,0xa0,0x9a,0x31,0x02,0x20,0x50,0x85,0x99,0x36,
+            0xda,0x52,0xfc,0xee,0x21,0x80,0x05,0x16,0x4f,0x26,0x7c,0xb6,0x5f,0x5c,0xfd,0x7f,
+            0x2b,0x4f,0x97,0xe0,0xff,0x16,0x92,0x4a,0x52,0xdf,0x26,0x95,0x15,0x11,0x0a,0x07,
+            0xf9,0xe4,0x60,0xbc,0x65,0xef,0x95,0xda,0x58,0xf7,0x40,0xb7,0xd1,0xdb,0xb0,0xaa] ∧
+    Model.Salsa20.crypt [0x80,0,0,0,0,0,0,0,0,0,0,0,0,0,0,0] [0,0,0,0,0,0,0,0] 0 (List.replicate 64 0) =
+      Spec.Salsa20.casc [0x80,0,0,0,0,0,0,0,0,0,0,0,0,0,0,0] [0,0,0,0,0,0,0,0] 0 (List.replicate 64 0) := by
+  refine ⟨by decide +kernel, ?_⟩
+  exact salsa20_model_eq_spec _ _ _ _ (by decide)
+
 /-! ### lookup3 -/
 
 /-- `hashlittle2_impl` (block loop + 12-case tail) = lookup3.c `hashlittle2`, every seed pair,
@@ -85,6 +99,84 @@ theorem jenkins96_parts (k : Bytes) (hlen : k.length < 2 ^ 32) :
   unfold Model.Jenkins.jenkins96
   rw [hashlittle2_eq_spec k 0 0 hlen]
   exact ⟨rfl, rfl⟩
+
+/-- `x | 0x8000_0000` on a 32-bit word: bit 31 set, the low 31 bits kept. -/
+theorem or_top_bit (x : W32) : (x ||| 0x80000000).toNat = x.toNat % 2 ^ 31 + 2 ^ 31 := by
+  have hx := x.isLt
+  rw [BitVec.toNat_or]
+  show x.toNat ||| 2147483648 = _
+  have e : (2147483648 : Nat) = 1 <<< 31 := by decide
+  by_cases h : x.toNat < 2 ^ 31
+  · rw [Nat.or_comm, e, ← Nat.shiftLeft_add_eq_or_of_lt h, Nat.mod_eq_of_lt h]; omega
+  · have hy : x.toNat - 2 ^ 31 < 2 ^ 31 := by omega
+    have hd : x.toNat = 1 <<< 31 ||| (x.toNat - 2 ^ 31) := by
+      rw [← Nat.shiftLeft_add_eq_or_of_lt hy]; simp only [Nat.shiftLeft_eq]; omega
+    have : x.toNat ||| 1 <<< 31 = x.toNat := by
+      rw [hd, Nat.or_comm, ← Nat.or_assoc, Nat.or_self]
+    rw [e, this]; omega
+
+/-! ### users of the seeded hash (LocalHeader checksum_a, UpdateEntry hash guard) -/
+
+/-- `LocalHeader::compute_checksum_a` on a 30-byte header: lookup3.c `hashlittle` of exactly header
+bytes `[0, 0x16)` with seed `0x3D6BE971` (Agent.exe `hashlittle(&header[0], 0x16, 0x3D6BE971)`);
+it does not depend on bytes `0x16..` (the two checksum fields); and C07's `validate_checksums`
+acceptor instantiated with C09's hash compares the stored little-endian word at `[0x16, 0x1A)` with
+exactly this value (and bytes `[0x1A, 0x1E)` with the XOR lanes). -/
+theorem checksum_a_def (h : Bytes) (hl : h.length = 30) :
+    Model.HashGuards.checksumA h = Spec.Lookup3.hashlittle (h.take 22) 0x3D6BE971 ∧
+    (∀ t : Bytes, Model.HashGuards.checksumA (h.take 22 ++ t) = Model.HashGuards.checksumA h) ∧
+    (∀ base, Model.HashGuards.lhdrValidate base h =
+      (Model.Integrity.leNat (Model.Integrity.slice h 22 4) == (Model.HashGuards.checksumA h).toNat &&
+        Model.Integrity.slice h 26 4 == Model.Integrity.Lhdr.checksumB base h)) := by
+  refine ⟨?_, ?_, ?_⟩
+  · unfold Model.HashGuards.checksumA Model.HashGuards.checksumASeed
+    exact hashlittle_eq_spec _ _ (by
+      have : (h.take 22).length ≤ 22 := by simp only [List.length_take]; omega
+      omega)
+  · intro t
+    unfold Model.HashGuards.checksumA
+    rw [List.take_append_of_le_length (by simp only [List.length_take]; omega), List.take_take]
+    simp
+  · intro base
+    unfold Model.HashGuards.lhdrValidate Model.Integrity.Lhdr.validate Model.HashGuards.checksumA
+    rw [Nat.mod_eq_of_lt (BitVec.isLt _)]
+
+/-- `UpdateEntry::compute_hash_guard` on a 24-byte entry: lookup3.c `hashlittle` of exactly entry
+bytes `[4, 23)` with seed 0, with bit 31 forced to 1 and the low 31 bits of the hash kept (so a
+valid guard is never 0, the empty-slot marker); it does not depend on bytes `[0,4)` (the guard
+field itself) nor on byte 23 (padding); and it is the `guardOf` that C07's `validate_hash_guard`
+acceptor uses when instantiated with C09's hash. -/
+theorem hash_guard_def (e : Bytes) (hl : e.length = 24) :
+    Model.HashGuards.hashGuard e =
+      Spec.Lookup3.hashlittle (Model.Integrity.slice e 4 19) 0 ||| 0x80000000 ∧
+    (Model.HashGuards.hashGuard e).toNat =
+      (Spec.Lookup3.hashlittle (Model.Integrity.slice e 4 19) 0).toNat % 2 ^ 31 + 2 ^ 31 ∧
+    (Model.HashGuards.hashGuard e).toNat ≠ 0 ∧
+    (∀ g p : Bytes, g.length = 4 → Model.HashGuards.hashGuard (g ++ Model.Integrity.slice e 4 19 ++ p) =
+        Model.HashGuards.hashGuard e) ∧
+    (Model.HashGuards.hashGuard e).toNat =
+      Model.Integrity.Upd.guardOf (fun r => (Model.Jenkins.hashlittle r 0).toNat)
+        (Model.Integrity.slice e 4 19) := by
+  have hs : (Model.Integrity.slice e 4 19).length = 19 := by
+    simp only [Model.Integrity.slice, List.length_take, List.length_drop]; omega
+  have h1 : Model.HashGuards.hashGuard e =
+      Spec.Lookup3.hashlittle (Model.Integrity.slice e 4 19) 0 ||| 0x80000000 := by
+    unfold Model.HashGuards.hashGuard
+    rw [hashlittle_eq_spec _ _ (by omega)]
+  refine ⟨h1, ?_, ?_, ?_, ?_⟩
+  · rw [h1, or_top_bit]
+  · rw [h1, or_top_bit]; omega
+  · intro g p hg
+    unfold Model.HashGuards.hashGuard
+    have : Model.Integrity.slice (g ++ Model.Integrity.slice e 4 19 ++ p) 4 19 =
+        Model.Integrity.slice e 4 19 := by
+      show ((g ++ Model.Integrity.slice e 4 19 ++ p).drop 4).take 19 = _
+      have hd : g.drop 4 = [] := List.drop_eq_nil_of_le (by omega)
+      rw [List.append_assoc, List.drop_append_of_le_length (by omega), hd,
+        List.nil_append, List.take_append_of_le_length (by omega), List.take_of_length_le (by omega)]
+    rw [this]
+  · unfold Model.Integrity.Upd.guardOf Model.HashGuards.hashGuard
+    rw [or_top_bit]
 
 /-! ### ARC4 -/
 
@@ -248,6 +340,9 @@ example : (Model.Salsa20.crypt (List.replicate 16 1) [2,3,4,5] 7 [0x41, 0x42]).i
   rw [salsa20_iv_len_guard _ _ _ _ (by decide)]; decide
 example : (Model.Arc4.new [0x4b, 0x65, 0x79]).isSome = true := by
   rw [arc4_key_len_guard]; decide
+/-- 30-byte headers / 24-byte entries exist (hypotheses of `checksum_a_def` / `hash_guard_def`). -/
+example : ((List.range 30).map (BitVec.ofNat 8)).length = 30 ∧ ((List.range 24).map (BitVec.ofNat 8)).length = 24 := by
+  decide
 /-- the hypothesis `new key = some c` of `arc4_stream_eq_spec` / `arc4_sbox_permutation` is met by
 every key of 1..256 bytes (e.g. "Key"). -/
 example : ∃ c, Model.Arc4.new [0x4b, 0x65, 0x79] = some c :=
